@@ -260,6 +260,124 @@ def part_cli(run):
     return len(jobs)
 
 
+# ---- the parsers' --skip-failed paths: one failing row in every position of a 4-row input ------------------------------
+def parser_case(job):
+    """job = (tool, failure kind, position of the failing row 0..3 | None, skip).  A row 'fails' when its conversion raises
+    (a breakpoint / location outside its gene, a non-integer coordinate, a contig that is not in the genome); rows naming
+    unknown genes are a different, always-skipped category (C15) and are not used here."""
+    import re as _re, c15lib as L15, c14lib as L14
+    tool, kind, pos, skip = job
+    d = vlib.worker_dir() / 'c07p'
+    d.mkdir(exist_ok=True)
+    out = d / 'o.gvf'
+    if out.exists():
+        out.unlink()
+    if tool == 'vep':
+        R = _PREF.setdefault('vep', L14.make_ref((0, False)))
+        rd = d / 'refv'
+        if not rd.exists():
+            R.write(rd)
+        tx = R.genes[0]['transcripts'][0]
+        g = R.genes[0]
+        ex = tx['exons']
+        good = []
+        for k in range(3):
+            x = ex[0][0] + 2 + 3 * k
+            b = R.genome[x]
+            alt = 'A' if b != 'A' else 'C'
+            if g['strand'] == -1:
+                alt = {'A': 'T', 'C': 'G', 'G': 'C', 'T': 'A'}[alt]
+            good.append(L14.vep_line(R.chrom, f'v{k}', str(x + 1), alt if g['strand'] == 1 else alt, g['gene_id'], tx['tx_id'], g['strand']))
+        bad = dict(beyond=L14.vep_line(R.chrom, 'vb', str(len(R.genome) - 2), 'A', g['gene_id'], tx['tx_id'], g['strand']),
+                   nonint=L14.vep_line(R.chrom, 'vb', '12x', 'A', g['gene_id'], tx['tx_id'], g['strand']),
+                   contig=L14.vep_line('chrZZ', 'vb', str(ex[0][0] + 3), 'A', g['gene_id'], tx['tx_id'], g['strand']))[kind]
+        hdr = L14.VEP_HEADER
+        argv0 = ['parseVEP', '--genome-fasta', rd / 'genome.fasta', '--annotation-gtf', rd / 'annotation.gtf', '--source', 'gSNP']
+    else:
+        R = _PREF.setdefault('fus', L15.build_ref())
+        rd = d / 'reff'
+        if not rd.exists():
+            R.write(rd)
+        genes = sorted(R.gene)
+
+        def mid(gid):
+            e0 = R.gene[gid]['transcripts'][0]['exons'][0]
+            return (e0[0] + e0[1]) // 2
+        rows = [L15.Row(genes[0], mid(genes[0]), genes[1], mid(genes[1])), L15.Row(genes[1], mid(genes[1]), genes[2], mid(genes[2])),
+                L15.Row(genes[2], mid(genes[2]), genes[0], mid(genes[0]))]
+        good = [L15.row_text(R, tool, r) for r in rows]
+        src = L15.row_text(R, tool, L15.Row(genes[1], mid(genes[1]), genes[3], mid(genes[3])))
+        if kind == 'beyond':
+            bad = _re.sub(r':(\d+)', lambda m: ':' + str(len(R.genome) + 500), src, count=1)
+        elif kind == 'nonint':
+            bad = _re.sub(r':(\d+)', ':12x', src, count=1)
+        else:
+            c = R.chrom[3:] if tool == 'fc' else R.chrom
+            bad = src.replace(c + ':', ('ZZ' if tool == 'fc' else 'chrZZ') + ':')
+        hdr = {'star': L15.STAR_HEADER, 'fc': L15.FC_HEADER, 'arriba': L15.ARRIBA_HEADER}[tool]
+        argv0 = [L15.COMMAND[tool], '--source', 'Fusion', '-a', rd / 'annotation.gtf', '-g', rd / 'genome.fasta']
+    lines = list(good)
+    if pos is not None:
+        lines.insert(pos, bad)
+    inp = d / 'in.tsv'
+    inp.write_text(hdr + '\n' + '\n'.join(lines) + '\n')
+    r = drive.run(argv0 + ['-i', inp, '-o', out, '--quiet'] + (['--skip-failed'] if skip else []), capture_log=True)
+    recs = None
+    if out.exists():
+        recs = sorted(l.rstrip('\n') for l in open(out) if not l.startswith('#'))
+    return dict(ok=r['ok'], exc=r['exc'], recs=recs)
+
+
+_PREF = {}
+
+
+def part_parsers(run):
+    jobs = []
+    for tool in ('star', 'fc', 'arriba', 'vep'):
+        jobs.append((tool, 'beyond', None, False))
+        jobs.append((tool, 'beyond', None, True))
+        for kind in ('beyond', 'nonint', 'contig'):
+            for pos in range(4):
+                for skip in (False, True):
+                    jobs.append((tool, kind, pos, skip))
+    res = vlib.pmap(parser_case, jobs, jobs=run.jobs)
+    errs = vlib.harness_errors(res)
+    if errs:
+        raise RuntimeError(errs[0])
+    by = dict(zip(jobs, res))
+    nt = 0
+    for tool in ('star', 'fc', 'arriba', 'vep'):
+        base = by[(tool, 'beyond', None, False)]
+        if not base['ok'] or not base['recs'] or by[(tool, 'beyond', None, True)]['recs'] != base['recs']:
+            raise RuntimeError(f'parser base run unusable for {tool}: {base["exc"]}')
+        # does this row kind fail at all for this tool?  (a row that converts fine is not a fault: e.g. Arriba rows carry
+        # gene ids, so a foreign contig name is irrelevant).  Decided by the run WITH --skip-failed: the row is a fault iff
+        # the good rows' records come out alone.
+        for kind in ('beyond', 'nonint', 'contig'):
+            for pos in range(4):
+                a, b = by[(tool, kind, pos, False)], by[(tool, kind, pos, True)]
+                key = f'parser/{tool}/{kind}/pos={pos}'
+                rep = dict(kind='parser', tool=tool, fault=kind, pos=pos)
+                if not b['ok']:
+                    run.violation(key + '/skip=1|aborted', f'--skip-failed run raised {b["exc"]}', rep)
+                    continue
+                is_fault = b['recs'] == base['recs']
+                if not is_fault:
+                    # the row converted to records: then both runs must agree and complete
+                    if not a['ok'] or a['recs'] != b['recs']:
+                        run.violation(key + '|inconsistent', f'row yields records with --skip-failed but without it: ok={a["ok"]} {a["exc"]}', rep)
+                    continue
+                nt += 1
+                if a['ok']:
+                    run.violation(key + '/skip=0|no-abort', f'a row that fails to convert was swallowed without --skip-failed '
+                                  f'(records written: {len(a["recs"] or [])})', rep)
+                elif a['recs'] is not None:
+                    run.violation(key + '/skip=0|gvf-after-abort', 'the command aborted but left an output GVF', rep)
+    run.block('parsers-skip-failed', len(jobs), nt, True, tools='parseSTARFusion,parseFusionCatcher,parseArriba,parseVEP',
+              faults='breakpoint beyond the genome, non-integer coordinate, foreign contig', positions='0..3')
+    return len(jobs)
+
+
 def main():
     run = vlib.Run('C07', 'fault_enumeration', __doc__)
     small, fus, circ, units = build_input()
@@ -304,6 +422,8 @@ def main():
                 'non-trivial = at least one failing unit has peptides in the fault-free run.')
     if run.want('cli'):
         part_cli(run)
+    if run.want('parsers'):
+        part_parsers(run)
     run.sample(dict(units=[list(u) for u in units], example_fault=[list(units[0]), list(units[1])]))
     run.assume('faults are injected at the entry of call_peptide_main / call_peptide_fusion / call_peptide_circ_rna')
     run.finish()
